@@ -12,7 +12,26 @@ def _digits(a, width):
     while n < 40 and not (a < 10 ** n):
         n += 1
     ds = [48 + (a // 10 ** i) % 10 for i in range(n - 1, -1, -1)]
+    _assert_recomposition(a, ds, n)
     return [48] * max(0, width - n) + ds
+
+def _assert_recomposition(a, ds, n):
+    """Hand the solver the arithmetic identity sum(digit_i * 10**i) == a for the digits just defined (true for every 0 <= a < 10**n
+    by the definition digit_i = (a div 10**i) mod 10; a fact about integers, not about the code under test).  Without it z3 times out
+    re-deriving the identity when a parser re-assembles a 6-9 digit field."""
+    import z3
+    from crosshair.statespace import context_statespace
+    with NoTracing():
+        if not isinstance(a, SymbolicInt) or n < 4:
+            return
+        terms = []
+        for k, d in enumerate(ds):                     # ds[0] is the most significant digit
+            if not isinstance(d, SymbolicInt):
+                return
+            terms.append((d.var - 48) * (10 ** (n - 1 - k)))
+        context_statespace().add(z3.Sum(terms) == a.var)
+        STATS["recomposition_facts"] = STATS.get("recomposition_facts", 0) + 1
+
 
 def sym_format(self, fmt):
     fmt = realize(fmt)
